@@ -97,8 +97,8 @@ func c05Container(kind int) gopacket.DecodingLayerContainer {
 type c05Set struct {
 	decoys bool // register a first object for every other type before the real one (replacement must work)
 	types  []gopacket.LayerType
-	objs  map[gopacket.LayerType]gopacket.DecodingLayer
-	in    map[gopacket.LayerType]bool
+	objs   map[gopacket.LayerType]gopacket.DecodingLayer
+	in     map[gopacket.LayerType]bool
 }
 
 func c05MakeSet(types []gopacket.LayerType) *c05Set {
@@ -177,7 +177,9 @@ func c05Compare(c *vlib.Ctx, first gopacket.LayerType, b []byte, set *c05Set, ki
 		}
 		return map[string]any{"first_layer": first.String(), "input_hex": hx(b), "mutation": how, "layer_set": strings.Join(ts, ","), "container": c05ContainerNames[kind]}
 	}
-	var dec []gopacket.LayerType
+	// the slice the caller passes is reused from packet to packet (as in the package documentation): it arrives holding
+	// the previous packet's layers, which must not show in this packet's result however the decode ends
+	dec := []gopacket.LayerType{gopacket.LayerTypePayload, gopacket.LayerTypeFragment, gopacket.LayerTypePayload}
 	var perr error
 	ps := set.parser(first, kind)
 	if pi := vlib.Guard(func() { perr = ps.DecodeLayers(b, &dec) }); pi != nil {
@@ -422,6 +424,7 @@ func c05Stale(c *vlib.Ctx) {
 		kind := r.Intn(len(c05ContainerNames))
 		reused := c05MakeSet(c05Core)
 		rp := reused.parser(eth, kind)
+		var d1 []gopacket.LayerType // reused along the sequence, as the layer objects are
 		for j := 0; j < chunk; j++ {
 			var b []byte
 			how := "constructed"
@@ -438,7 +441,7 @@ func c05Stale(c *vlib.Ctx) {
 			}
 			fresh := c05MakeSet(c05Core)
 			fp := fresh.parser(eth, kind)
-			var d1, d2 []gopacket.LayerType
+			var d2 []gopacket.LayerType
 			var e1, e2 error
 			if pi := vlib.Guard(func() { e1 = rp.DecodeLayers(b, &d1) }); pi != nil {
 				reused = c05MakeSet(c05Core)
